@@ -936,7 +936,7 @@ def source_pins(repo):
         'torf/_utils.py': ['MonitoredList', 'URL', 'URLs', 'Trackers', 'is_url', 'assert_type', 'key_exists_in_list_or_dict', 'decode_value', 'decode_list',
                            'decode_dict', 'encode_list', 'list_files', 'filter_files', 'real_size', 'File', 'Filepath', 'Filepaths', 'Files', 'flatten'],
         'torf/_magnet.py': ['Magnet.__str__', 'Magnet.from_string', 'Magnet.torrent', 'Magnet.get_info', 'Magnet._set_info_from_torrent', 'Magnet.xl',
-                            'Magnet.dn', 'Magnet.tr', 'Magnet.ws', 'Magnet.xs', 'Magnet.as_', 'Magnet.kt', 'Magnet._infohash_hex', 'Magnet.__init__'],
+                            'Magnet.dn', 'Magnet.tr', 'Magnet.ws', 'Magnet.xs', 'Magnet.as_', 'Magnet.kt', 'Magnet._infohash_hex', 'Magnet.__init__', 'Magnet._has_info'],
         'torf/_reuse.py': ['find_torrent_files', 'is_file_match', '_get_filepaths_and_sizes', 'is_content_match', 'copy', 'ReuseCallback'],
         'torf/_errors.py': ['VerifyContentError', 'VerifyFileSizeError', 'ReadError'],
     }
